@@ -161,7 +161,8 @@ def gen_configs(seed: int, n: int, nx_max: int, families: str = "all") -> list[d
         if kind == "single" and rng.random() < 0.15:
             others = [t2 for t2 in ("pvt_gas", "ideal_csv", "synth_z:0.0002", "synth_alpha:rising") if t2 != tab]
             t2 = str(rng.choice(others))
-            if float(np.asarray(sdrv.table(t2)["pressure"])[-1]) >= pi:
+            p2 = np.asarray(sdrv.table(t2)["pressure"], dtype=float)
+            if float(p2[-1]) >= pi and float(p2[1]) <= pf:
                 c["prelude"] = t2
         cfgs.append(c)
     # fine meshes with few steps are always present (node counts up to 400 are in the property's quantifier)
